@@ -33,6 +33,7 @@ class Campaign:
     real_components: list = []
     stub_components: list = []
     run_timeout_s = 60
+    replay_timeout_s = 300
 
     def budget(self, tier: str) -> dict:
         return {"runs": 100, "wall_s": 120}
@@ -213,7 +214,7 @@ def verify_replay(camp: Campaign, path: str) -> bool:
     env["PYTHONHASHSEED"] = "0"
     try:
         p = subprocess.run([sys.executable, os.path.join(VERIF_DIR, "check.py"), camp.prop, "--replay", path],
-                           capture_output=True, text=True, timeout=300, env=env, cwd=VERIF_DIR)
+                           capture_output=True, text=True, timeout=camp.replay_timeout_s, env=env, cwd=VERIF_DIR)
     except subprocess.TimeoutExpired:
         return False
     return p.returncode == 1 and f"VIOLATION property={camp.prop}" in p.stdout
